@@ -18,7 +18,7 @@ open Lean FFS FFS.Model.Proxy FFS.Gen.ProxyFacts
 theorem facts :
     dispatch.map (·.1) = ["eth_accounts", "personal_accounts", "eth_sendTransaction", "*"] ∧
     idRestored = true ∧ versionForced = true ∧
-    RPCCodeParseError = -32700 ∧ RPCCodeInvalidRequest = -32600 ∧ RPCCodeInternalError = -32603 := by decide
+    nullNonceRejected = true ∧ RPCCodeParseError = -32700 ∧ RPCCodeInvalidRequest = -32600 ∧ RPCCodeInternalError = -32603 := by decide
 
 /-- **Own id, whatever the backend echoed.** -/
 theorem syncRequest_id (script : Script) (id : Json) (m : String) : (syncRequest script id m).1.id = id := by
@@ -113,15 +113,19 @@ theorem nonceLookup_noRaw (script : Script) (f : Json) (nonce : Option Nat) :
     · simp only []
       split
       · simp [lookupFwds, countFwd, isRaw]
-      · split <;> simp [lookupFwds, countFwd, isRaw]
+      · split
+        · simp [lookupFwds, countFwd, isRaw]
+        · split <;> simp [lookupFwds, countFwd, isRaw]
+        · simp [lookupFwds, countFwd, isRaw]
 
-/-- a supplied nonce is the one signed; an absent one is the backend's pending count -/
+/-- **The nonce that is signed is a definite one**: the supplied nonce, or else the pending count the backend
+    reported for `from` (a successful eth_getTransactionCount whose result is an integer). Never an implied zero. -/
 theorem nonceLookup_nonce (script : Script) (f : Json) (nonce : Option Nat) (fwds : List Fwd) (n : Option Nat)
     (h : nonceLookup script f nonce = .got fwds n) :
     (∃ k, nonce = some k ∧ n = some k ∧ fwds = []) ∨
-    (nonce = none ∧ ∃ a, addrOfJson f = some a ∧ fwds = [countFwd a] ∧
+    (nonce = none ∧ ∃ a k, addrOfJson f = some a ∧ fwds = [countFwd a] ∧ n = some k ∧
       (syncRequest script (Json.str "internal") "eth_getTransactionCount").2 = false ∧
-      ((syncRequest script (Json.str "internal") "eth_getTransactionCount").1.result.bind fun v => hexIntOf v) = some n) := by
+      ((syncRequest script (Json.str "internal") "eth_getTransactionCount").1.result.bind fun v => hexIntOf v) = some (some k)) := by
   unfold nonceLookup at h
   split at h
   · rename_i k
@@ -135,11 +139,16 @@ theorem nonceLookup_nonce (script : Script) (f : Json) (nonce : Option Nat) (fwd
       · cases h
       · rename_i hne
         split at h
-        · rename_i n' hn'
+        · rename_i k hk
           injection h with h1 h2
-          subst h2
-          exact Or.inr ⟨rfl, a, ha, h1.symm, by simpa using hne, hn'⟩
+          exact Or.inr ⟨rfl, a, k, ha, h1.symm, h2.symm, by simpa using hne, hk⟩
+        · simp only [nullNonceRejected, if_true] at h
+          cases h
         · cases h
+
+theorem nonceLookup_definite (script : Script) (f : Json) (nonce : Option Nat) (fwds : List Fwd) (n : Option Nat)
+    (h : nonceLookup script f nonce = .got fwds n) : n.isSome = true := by
+  rcases nonceLookup_nonce script f nonce fwds n h with ⟨k, _, hn, _⟩ | ⟨_, a, k, _, _, hn, _⟩ <;> simp [hn]
 
 /-- **eth_sendTransaction: at most one raw transaction reaches the backend, and it is signed for `from`,
     which the wallet holds, over the request's own transaction object and the supplied / reported nonce.** -/
